@@ -145,6 +145,19 @@ def run(ctx):
                        "[fresh] the initial population is recorded exactly once, before the loop",
                        f"[fresh] appends outside the loop: { {k: len(v) for k, v in by.items()} } (expected exactly the initial population, once, before the loop)", disc="fresh")
 
+    # ---- every fresh run starts from an empty history of its own
+    sfr = fold_sample(repo, resumed=False, final=False)
+    stores_h = [st_ for st_ in sfr.ev.stores if st_[0] == SELF and st_[1] == "history" and st_[4] is sample]
+    first_app = min((e.seq for e in sfr.ev.events if e.callee == "method:append" and e.func is sample), default=None)
+    okh = bool(stores_h) and stores_h[0][2][0] == "obj" and stores_h[0][2][2] == "SMCHistory" and (first_app is None or stores_h[0][5] < first_app)
+    ctx.decide(okh, "C18.reset", sample.ident, loc_of(sample, stores_h[0][3] if stores_h else loop_node),
+               "[fresh] sample() creates a new, empty SMCHistory before anything is recorded",
+               "[fresh] sample() does not start from a new empty history: a second run on the same sampler object appends to the first run's series and populations")
+    # ---- a checkpoint holds a snapshot of the history, not the live lists
+    from ..report import reuse
+    from . import c11
+    reuse(ctx, c11.run, ("C11.snapshot",), "C18ckpt", "snapshot rule shared with C11: a resumed run's history starts from what the checkpoint recorded")
+
     # ---- definitions of the appended values
     sf = fold_sample(repo, resumed=False, final=False)
     lpr = sf.loop
@@ -233,6 +246,10 @@ MUTANTS = [
     M("emcee autocorr recorded twice", _E, "self.history.mcmc_autocorr.append(", "self.history.mcmc_autocorr.append(0.0)\n        self.history.mcmc_autocorr.append(", "C18.once"),
     M("mutate called twice per iteration", _B, "samples = self.mutate(samples, beta)\n                if store_sample_history:", "samples = self.mutate(samples, beta)\n                samples = self.mutate(samples, beta)\n                if store_sample_history:", "C18.once"),
     M("eff_target at the previous temperature", _B, "self.history.eff_target.append(\n                    self.current_target_efficiency(beta)\n                )", "self.history.eff_target.append(\n                    self.current_target_efficiency(samples.beta)\n                )", "C18.def"),
+]
+MUTANTS += [
+    M("history created once per sampler object", _B, "iterations = 0\n            self.history = SMCHistory()", "iterations = 0", ("C18.reset", "C18.init")),
+    M("checkpoint shares the diagnostic lists", _B, "history_copy = copy.deepcopy(self.history)", "history_copy = copy.copy(self.history)\n        history_copy.sample_history = list(self.history.sample_history)", "C18ckpt"),
 ]
 NEUTRALS = [
     M("history through a local alias", _B, "self.history.beta.append(beta)", "hist = self.history\n                hist.beta.append(beta)"),
